@@ -1,6 +1,6 @@
 (* C07 - Minimizer partition covers every k-mer exactly once with a true minimizer.  Statements only. *)
 From Coq Require Import NArith List Bool Arith.
-From DBG Require Import Gen.SourceConsts Spec.Dna Spec.ScanSpec Algo.Scan Check.ScanCheck Proofs.ScanProofs Proofs.ScanSweeps Proofs.ScanCheckProofs.
+From DBG Require Import Gen.SourceConsts Spec.Dna Spec.ScanSpec Algo.Scan Check.ScanCheck Proofs.ScanProofs Proofs.ScanSweeps Proofs.ScanCheckProofs Packed.KmerModel Proofs.ScoreBridge.
 Import ListNotations.
 Open Scope nat_scope.
 
@@ -84,6 +84,22 @@ Theorem C07_check_simple_sound : forall seq k p sc l, check_simple seq k p sc l 
   check_simple_chain seq k l = true.
 Proof. exact check_simple_sound. Qed.
 Print Assumptions C07_check_simple_sound.
+
+(* Packed bridge: the score `permutation[pi.to_u64()]` (optionally min with the score of `pi.rc()`) and the bucket
+   `minimizer.min_rc().to_u64()` computed on the PACKED p-mer with the packed operations equal perm_score / bucket_of of the
+   decoded p-mer: every shipped configuration of width <= 32, every well-formed storage value, every table. *)
+Theorem C07_packed_perm_score : forall c perm rcmode s, In c shipped -> wf (kK c) s -> kK c <= 32 ->
+  packed_perm_score c perm rcmode s = Some (perm_score perm rcmode (decode (kK c) s)).
+Proof. exact packed_perm_score_spec. Qed.
+Theorem C07_packed_bucket : forall c s, In c shipped -> wf (kK c) s -> kK c <= 32 ->
+  packed_bucket c s = Some (bucket_of (decode (kK c) s)).
+Proof. exact packed_bucket_spec. Qed.
+Example C07_packed_bridge_nonvacuous :
+  In (mkc 16 8) shipped /\ wf 8 27%N /\ packed_bucket (mkc 16 8) 27%N = Some 27%N /\
+  packed_perm_score (mkc 16 8) [] true 27%N = Some 0%N.
+Proof. vm_compute. repeat split; auto 30. Qed.
+Print Assumptions C07_packed_perm_score.
+Print Assumptions C07_packed_bucket.
 
 Print Assumptions C07_scan_spec.
 Print Assumptions C07_no_inner_panic.
